@@ -1,6 +1,6 @@
 (* C11 - PEP 440 comparison is a total order on the key of the property text.
    Model: Model/Pep440.v (ordering.rs).  Spec: Spec/Pep440Spec.v (pep_key, pep_key_cmp). *)
-From ZV Require Import Str Pep440 OrderFacts Pep440Spec Pep440Order SemVer SemVerProofs PepParseNf PepAccept.
+From ZV Require Import Str Pep440 OrderFacts Pep440Spec Pep440Order SemVer SemVerProofs PepParseNf PepAccept Findings.
 
 (* the comparison is the lexicographic order on (epoch, release without trailing zeros, pre phase and number
    with none highest, post with none lowest, dev with none highest, local with none lowest) *)
@@ -79,6 +79,14 @@ Proof. exact same_normal_form_equal. Qed.
 Theorem c11_v_prefix_irrelevant : forall c s v, ascii_lower c = 118%N ->
   (pep_parse (c :: s) = Some v <-> (exists d t, s = d :: t /\ is_ascii_digit d = true) /\ pep_parse s = Some v).
 Proof. exact pep_v_prefix_irrelevant. Qed.
+
+(* KNOWN FINDING of this property, as the model exhibits it (the check prints KNOWN-FINDING for the class; see known_findings.json) *)
+Example c11_finding_c11_oversize_local :
+match pep_parse [49;46;48;43;52;50;57;52;57;54;55;50;57;54]%N, pep_parse [49;46;48;43;49;48;48;48;48;48;48;48;48;48;48]%N with
+  | Some a, Some b => pep_cmp a b = Gt
+  | _, _ => False
+  end.
+Proof. exact finding_c11_oversize_local. Qed.
 
 Print Assumptions c11_is_key_order.
 Print Assumptions c11_key_order_good.
